@@ -836,6 +836,20 @@ def status_response_sites(tonic, body):
     return sites
 
 
+def trait_const_value(crate, term, type_short):
+    """value of an associated constant of a (private) trait named generically in a helper (`T::URL`, seen as constdef(Trait::URL)) for the
+    type argument the helper was instantiated with at a spliced call: looks the impl's constant `<Type as Trait>::URL` up"""
+    for cd in find_terms(term, lambda y: isinstance(y, tuple) and y and y[0] == 'constdef' and isinstance(y[1], str)):
+        if cd[1] in crate.consts:
+            continue
+        trait_, _, name_ = cd[1].rpartition('::')
+        tshort = trait_.rsplit('::', 1)[-1]
+        keys = [k for k in crate.consts if k.endswith('>::' + name_) and re.search(r'(^<|::)%s as (\w+::)*%s>::' % (re.escape(type_short), re.escape(tshort)), k)]
+        if len(keys) == 1:
+            return const_value(crate, ('constdef', keys[0]))
+    return None
+
+
 def returned_aggs(body, adt_suffix, variant):
     """[(bb, i, place, aggdict, ops)] of the aggregates of that kind that are part of what the function returns"""
     rets = mirlib.returned_terms(body)
